@@ -1,6 +1,6 @@
 """The checks claimed in MANIFEST.json (bin/mkmanifest turns this into the manifest)."""
 
-HOOK_COMMITS = ["314023f"]
+HOOK_COMMITS = ["314023f", "8ff5729"]
 NOTES = ("Model-based verification with explicit TLA+ specifications (spec/), TLC, and conformance checks in both directions "
          "against the Go code built from /repo's working tree. Exit 2 = infrastructure problem, never a verdict.")
 NOT_APPLICABLE = {}
@@ -28,4 +28,24 @@ CHECKS = {
   note="Trusted: TLC, the scheduler, the logging discipline (Call logged before, Ret after the real call). 2-4 threads, <= 3 "
        "operations per thread, 3 keys; parallel runs sample the real scheduler, they do not enumerate it.",
   technique="TLA+ refinement checked by TLC; linearizability of recorded histories decided by TLC trace validation"),
+ "C03": dict(
+  text="TLC checks that Hamt.tla - the trie of immutable/map.go with all five node kinds and their conversions - refines the "
+       "reference map (Get, Size, iterator exactly-once, node invariants) for ALL hash functions over 3 keys and the four hasher "
+       "families over 6 keys, every history up to the bound, and simulates the model with the real constants (32-way nodes, "
+       "thresholds 8/16, 32-bit hashes) checking the same refinement. The simulated histories and seeded random histories over 40 "
+       "keys (identity / low-entropy / constant / high-bit / mid-bit / random-table hashers, coarse Eqv, every constructor, builders, "
+       "zero values, Concat/Diff/Intersect/SubsetOf) are executed on the real library; after every step the full projection is "
+       "logged and TLC (TracePersist) accepts the log only if it equals the reference content of MapSpec.",
+  note="Trusted: TLC, the harness's projection through the public API (Get of every key, Size, IsEmpty, Iterator). Keys are ints; "
+       "the real-constant model is simulated, not exhausted.",
+  technique="TLA+ refinement (Hamt => MapSpec) model-checked/simulated with TLC; TLC trace validation of real histories against the reference map"),
+ "C04": dict(
+  text="The version stores Persist.tla (Map/Set/builders) and SeqStore.tla (Seq, iterator and list results, raw slices) make "
+       "persistence an action property: no step changes an existing version. Branching histories are executed on the real "
+       "library; after every step EVERY live version and every raw backing array handed to the library (slices with spare "
+       "capacity, sub-slices of a shared array) is re-read and logged; TLC accepts the log only if each still has the content "
+       "recorded at its creation and each new value equals the eager reference (SeqSpec / MapSpec).",
+  note="Trusted: TLC, the harness's snapshots (public API for Map/Set, element-wise reads up to cap for slices). Option/Try/tuples "
+       "are value types without reachable mutable storage and are covered only as elements.",
+  technique="TLC trace validation of branching histories against version-store specifications (every live version re-observed after every step)"),
 }
